@@ -79,6 +79,21 @@ def gen_ops(tier, rng):
         j = k - first
         ops.append('app S%d p%d' % (k, nparams + j % nparams_wide))
         ops.append('app S%d p%d' % (k, nparams + (j + 1) % nparams_wide))
+    # a substitution with THOUSANDS of bindings (one more very wide parameter list): bound, rebound in part, every parameter asked
+    nhuge = 4200 if tier == 'quick' else 20000
+    base = nparams + nparams_wide
+    ops.append('wide %d' % nhuge)
+    ops.append('gen')
+    k = nsub
+    nsub += 1
+    for q in range(nhuge):
+        ops.append('bind S%d p%d %s' % (k, base + q, val()))
+    for q in range(0, nhuge, 7):
+        ops.append('bind S%d p%d %s' % (k, base + q, val()))
+    for q in range(nhuge):
+        ops.append('app S%d p%d' % (k, base + q))
+    for q in range(nparams + nparams_wide):
+        ops.append('app S%d p%d' % (k, q))
     nhist = 40 if tier == 'quick' else 1500
     for h in range(nhist):
         pool = rng.randint(1, nparams)
@@ -88,6 +103,8 @@ def gen_ops(tier, rng):
         for q in range(nparams):
             ops.append('app S%d p%d' % (k, q))
         for _ in range(rng.choice([0, 1, 2, 5, 20, 60, 200])):
+            if rng.random() < 0.15:
+                ops.append('inst S%d' % k)          # the substitution is made the operand of an instantiation, and goes on being bound
             ops.append('bind S%d p%d %s' % (k, rng.randrange(pool), val()))
             qs = range(nparams) if rng.random() < 0.3 else [rng.randrange(nparams) for _ in range(3)]
             for q in qs:
@@ -143,7 +160,9 @@ def relevant(ops, i):
                 keep.append(o)
             else:
                 keep.append('gen')          # keep numbering
-        elif ww[0] == 'bind' and ww[1] == k:
+        elif ww[0] == 'wide':
+            keep.append(o)                  # (parameter numbering)
+        elif ww[0] in ('bind', 'inst') and ww[1] == k:
             keep.append(o)
     keep.append(ops[i])
     return keep
